@@ -324,3 +324,124 @@ func TestVerif_C08_ApiReadsVsLogins(t *testing.T) {
 }
 
 func sp8(s string) *string { return &s }
+
+// ---------------------------------------------------------------------------------------------
+// Which definition decides a login: an automatic subgroup has no file of its own and is governed by its parent's; once
+// it is given a file of its own (through the API, or by the administrator's editor), that file decides -- also when the
+// subgroup was already in use.
+
+var c08dRec = verifkit.New("TestVerif_C08_DedicatedSubgroupFile",
+	"a parent group with auto-subgroups and one user; a member is in the automatic subgroup (the server holds it in memory, governed by the parent's definition); 3..9 steps of: "+
+		"the subgroup is given a definition of its own with another user (API PUT with If-None-Match: *, or a file written next to the parent's), that definition is removed again "+
+		"(API DELETE or file removal), logins to the subgroup by the parent's user and by the subgroup's own user with right and wrong passwords; oracle: a login is decided by the "+
+		"subgroup's own file when there is one, by the parent's otherwise; non-trivial = a login after the definition in force had changed while the subgroup was in memory; distinct by plan")
+
+var c08dn int
+
+func TestVerif_C08_DedicatedSubgroupFile(t *testing.T) {
+	defer c08dRec.Flush()
+	rig := getRig()
+	rapid.Check(t, func(t *rapid.T) {
+		c08dn++
+		p := fmt.Sprintf("c08d-%d-%d", c08dn, time.Now().UnixNano()%100000)
+		sub := p + "/auto"
+		pfn := filepath.Join(rig.groups, p+".json")
+		sfn := filepath.Join(rig.groups, p, "auto.json")
+		defer os.Remove(pfn)
+		defer os.RemoveAll(filepath.Join(rig.groups, p))
+		auth := basic("root", "rootpw-MARKSECRETroot")
+		rig.writeGroup(p, map[string]any{"auto-subgroups": true, "users": map[string]any{"pu": map[string]any{"password": "pu-pw", "permissions": "present"}}})
+		keeper := &loginClient{id: "keeper-" + p}
+		kg, err := group.AddClient(sub, keeper, group.ClientCredentials{Username: sp8("pu"), Password: "pu-pw"})
+		if err != nil {
+			t.Fatalf("VERIF-HARNESS-ERROR: the keeper could not join the automatic subgroup: %v", err)
+		}
+		keeper.mu.Lock()
+		keeper.g = kg
+		keeper.mu.Unlock()
+		defer func() {
+			group.DelClient(keeper)
+			group.Delete(sub)
+			group.Delete(p)
+		}()
+		own := false
+		changes, loginsAfterChange := 0, 0
+		var plan []string
+		nl := 0
+		for i, n := 0, rapid.IntRange(3, 9).Draw(t, "steps"); i < n; i++ {
+			switch rapid.SampledFrom([]string{"give-own", "give-own", "remove-own", "login", "login", "login"}).Draw(t, "op") {
+			case "give-own":
+				if own {
+					continue
+				}
+				body := []byte(`{"users":{"su":{"password":"su-pw","permissions":"present"}}}`)
+				if rapid.Bool().Draw(t, "throughTheApi") {
+					r, err := rig.raw("PUT", "/galene-api/v0/.groups/"+sub, map[string]string{"Authorization": auth, "Content-Type": "application/json", "If-None-Match": "*"}, []byte(`{}`))
+					if err != nil || r.Status < 200 || r.Status >= 300 {
+						t.Fatalf("VERIF-HARNESS-ERROR: creating the subgroup's definition: %v %+v", err, r)
+					}
+					r, err = rig.raw("PUT", "/galene-api/v0/.groups/"+sub+"/.users/su", map[string]string{"Authorization": auth, "Content-Type": "application/json"}, []byte(`{"permissions":"present"}`))
+					if err != nil || r.Status < 200 || r.Status >= 300 {
+						t.Fatalf("VERIF-HARNESS-ERROR: creating the subgroup's user: %v %+v", err, r)
+					}
+					r, err = rig.raw("PUT", "/galene-api/v0/.groups/"+sub+"/.users/su/.password", map[string]string{"Authorization": auth, "Content-Type": "application/json"}, []byte(`"su-pw"`))
+					if err != nil || r.Status < 200 || r.Status >= 300 {
+						t.Fatalf("VERIF-HARNESS-ERROR: setting the subgroup user's password: %v %+v", err, r)
+					}
+					plan = append(plan, "own definition through the API")
+				} else {
+					os.MkdirAll(filepath.Dir(sfn), 0o755)
+					tmp := sfn + ".tmp"
+					os.WriteFile(tmp, body, 0o600)
+					os.Rename(tmp, sfn)
+					plan = append(plan, "own definition written as a file")
+				}
+				own = true
+				changes++
+			case "remove-own":
+				if !own {
+					continue
+				}
+				if rapid.Bool().Draw(t, "throughTheApi") {
+					r, err := rig.raw("DELETE", "/galene-api/v0/.groups/"+sub, map[string]string{"Authorization": auth}, nil)
+					if err != nil || r.Status < 200 || r.Status >= 300 {
+						t.Fatalf("VERIF-HARNESS-ERROR: deleting the subgroup's definition: %v %+v", err, r)
+					}
+					plan = append(plan, "own definition deleted through the API")
+				} else {
+					os.Remove(sfn)
+					plan = append(plan, "own definition removed as a file")
+				}
+				own = false
+				changes++
+			case "login":
+				c := rapid.SampledFrom([]struct {
+					user, pw string
+					parents  bool
+					right    bool
+				}{{"pu", "pu-pw", true, true}, {"pu", "su-pw", true, false}, {"su", "su-pw", false, true}, {"su", "pu-pw", false, false}, {"su", "", false, false}}).Draw(t, "credentials")
+				want := c.right && c.parents != own
+				nl++
+				lc := &loginClient{id: fmt.Sprintf("l%d-%s", nl, p)}
+				gg, err := group.AddClient(sub, lc, group.ClientCredentials{Username: sp8(c.user), Password: c.pw})
+				got := err == nil
+				if got {
+					lc.mu.Lock()
+					lc.g = gg
+					lc.mu.Unlock()
+					group.DelClient(lc)
+				}
+				plan = append(plan, fmt.Sprintf("login %s/%s=%v", c.user, c.pw, got))
+				if got != want {
+					t.Fatalf("C08: login to %s as %q with password %q: admitted=%v, want %v -- the subgroup %s, so it is governed by %s; steps: %v", sub, c.user, c.pw, got, want,
+						map[bool]string{true: "has a definition of its own", false: "has no definition of its own"}[own], map[bool]string{true: "that definition", false: "its parent's"}[own], plan)
+				}
+				if changes > 0 {
+					loginsAfterChange++
+				}
+			}
+		}
+		c08dRec.Case(loginsAfterChange > 0, strings.Join(plan, ";"), map[string]any{"plan": plan})
+		c08dRec.ClassN("logins_after_the_definition_in_force_changed", loginsAfterChange)
+	})
+}
